@@ -150,6 +150,31 @@ def run(prog, tier):
         if_stmt, cmp_node = acc[0]
         ex = expander(prog, ci)
         env = {a.arg: R.sym(a.arg) for a in fn.args.args[1:]}
+        # `if <shortcut> or draw < A`: the draw is compared only when the shortcut is false, so a conditional expression on the very
+        # same test (`A = 1.0 if uphill else exp(..)`) has the value of its else-arm where the comparison happens
+        assumed_false = []
+        if isinstance(if_stmt.test, ast.BoolOp) and isinstance(if_stmt.test.op, ast.Or):
+            assumed_false = [v for v in if_stmt.test.values if not uses_draw(v)]
+
+        def same_test(a, b):
+            if isinstance(a, CmpV) and isinstance(b, CmpV) and a.op == b.op and isinstance(a.left, R) and isinstance(b.left, R) \
+                    and isinstance(a.right, R) and isinstance(b.right, R):
+                return a.left.eq(b.left) and a.right.eq(b.right)
+            return False
+
+        def on_ifexp(node, env_, ex=ex, assumed_false=assumed_false):
+            if not isinstance(node, ast.IfExp):
+                return None
+            try:
+                tv = ex.eval(node.test, env_)
+                for d in assumed_false:
+                    if same_test(tv, ex.eval(d, env_)):
+                        return "orelse"
+            except Unsupported:
+                pass
+            return None
+        if assumed_false:
+            ex.on_if = on_ifexp
         guard(lambda: ex.run_until(fn.body, env, if_stmt))
         cmpv = guard(lambda: ex.eval(cmp_node, env))
         if not (isinstance(cmpv, CmpV) and isinstance(cmpv.left, R) and isinstance(cmpv.right, R)):
@@ -297,7 +322,21 @@ def run(prog, tier):
         if shortcut is not None:
             t = shortcut[1]
             ok_s, why = False, f"shortcut `{U(t)}`"
-            if isinstance(t, ast.Compare) and len(t.ops) == 1 and isinstance(t.ops[0], (ast.Gt, ast.GtE)):
+            tv_ = None
+            if isinstance(t, ast.Name):
+                # the shortcut held in a local (`uphill = p_new > p_old`)
+                try:
+                    tv_ = ex.eval(t, env)
+                except Unsupported:
+                    tv_ = None
+            if isinstance(tv_, CmpV) and tv_.op in ("Gt", "GtE") and isinstance(tv_.left, R) and isinstance(tv_.right, R):
+                l, r_ = tv_.left, tv_.right
+                if r_.is_const() and r_.const_value() == 1:
+                    ok_s = l.eq(A)
+                else:
+                    ok_s = (l - r_).eq(E)
+                why += f": left-right = {l - r_}; log A = {E}"
+            elif isinstance(t, ast.Compare) and len(t.ops) == 1 and isinstance(t.ops[0], (ast.Gt, ast.GtE)):
                 l = guard(lambda: ex.eval(t.left, env))
                 r_ = guard(lambda: ex.eval(t.comparators[0], env))
                 if isinstance(l, R) and isinstance(r_, R):
@@ -629,14 +668,19 @@ def _hmc_fresh(prog):
         mom = [k for k, v in src.items() if isinstance(v, ast.Call) and U(v.func) == "self.mass.sample_momentum"]
         if len(mom) != 1:
             problems.append("momentum is not drawn inside the attempt loop")
-        t0 = [k for k, v in src.items() if U(v) == "self.theta[-1]"]
-        if len(t0) != 1:
-            problems.append("start of the trajectory is not self.theta[-1]")
-        lf = [v for v in src.values() if isinstance(v, ast.Call) and U(v.func) == "self.run_leapfrog"]
+        lf = [(st, st.value) for st in lp.body if isinstance(st, ast.Assign) and isinstance(st.value, ast.Call) and U(st.value.func) == "self.run_leapfrog"]
         if len(lf) != 1:
             problems.append("no single run_leapfrog call in the attempt loop")
-        elif mom and t0:
-            a = [U(x) for x in lf[0].args[:2]]
-            if a != [f"{t0[0]}.copy()", f"{mom[0]}.copy()"]:
-                problems.append(f"leapfrog must receive copies of the current point and the fresh momentum; receives {a}")
+        elif mom:
+            # as resolved terms: wherever the current point was read into a local (inside the loop or before it - nothing changes
+            # self.theta between attempts), the trajectory starts from a copy of self.theta[-1] and of the momentum drawn in this attempt
+            from ..term import Resolver
+            rz = Resolver(fn, prog, c.module, c)
+            st_, call_ = lf[0]
+            a0 = U(rz.term(call_.args[0], st_)) if call_.args else None
+            a1 = U(rz.term(call_.args[1], st_, keep=(mom[0],))) if len(call_.args) > 1 else None
+            if a0 not in ("self.theta[-1].copy()", "copy(self.theta[-1])", "array(self.theta[-1])"):
+                problems.append(f"start of the trajectory is not a copy of self.theta[-1]: `{a0}`")
+            if a1 not in (f"{mom[0]}.copy()", f"copy({mom[0]})", f"array({mom[0]})"):
+                problems.append(f"leapfrog must receive a copy of the fresh momentum; receives `{a1}`")
     return struct_ob("hmc-fresh-momentum", qual(c, fn), not problems, "; ".join(problems), rel, fn.lineno)
